@@ -79,7 +79,7 @@ CLAIMED = {
         design="4/C20, Appendix Q"),
 }
 
-INTEGRATED = {"C01", "C17", "C16", "C11", "C05", "C19", "C12", "C13", "C15", "C02", "C03", "C04", "C14"}
+INTEGRATED = {"C01", "C17", "C16", "C11", "C05", "C19", "C12", "C13", "C15", "C02", "C03", "C04", "C14", "C09", "C20"}
 
 NOT_YET = "check not built yet in this revision (planned, see DESIGN.md section 4)"
 
